@@ -187,6 +187,8 @@ def parseCfg (toks : List String) : Option Cfg :=
     -- what the transport answers to `poll_flush` / `poll_close`: the client calls neither, so nothing depends on it
     -- a new waker for every poll of a task, only the latest one wakes it: every future re-registers on every poll
     | "wk" => if v ∈ ["same", "fresh"] then some c else none
+    -- `WCALLS` statistics of the transport (computed by the driver with TxStream/TxMock, not by `World`)
+    | "wtrace" => if v ∈ ["0", "1"] then some c else none
     | "wflush" => if v ∈ ["ok", "err", "pend"] then some c else none
     | "wclose" => if v ∈ ["ok", "err", "pend"] then some c else none
     | _ => none
